@@ -37,6 +37,11 @@ rewritten before every build):
                        K.removeOperation, K.removeAllOperations, K.useMessagePriority, K.useMessageID,
                        K.useNodeID, K.useCAN2A, K.useBitMask  (+ their _loop1 / _after1)
     message.go         (*Message).GetCANID                  K.getCANID
+    signal_type.go     newSignalTypeFromEntity              K.newSignalTypeFromEntity
+    attribute.go       newIntegerAttributeFromBase, newFloatAttributeFromBase
+                                                            K.newIntegerAttribute, K.newFloatAttribute
+    signal_enum.go     (*SignalEnum).verifyValueName, verifyValueIndex
+                                                            K.verifyValueName, K.verifyValueIndex
     signal_layout.go   signExtend                           K.signExtend
     signal_layout.go   (*SignalLayout).decodeStandardSignal K.decodeStandard
     signal_layout.go   (*SignalLayout).decodeEnumSignal     K.decodeEnum (+ _loop1, _after1)
@@ -281,6 +286,30 @@ stringers and name / reference bookkeeping aside) and `(*Message).GetCANID` are 
     is an alias.  `K_getCANID`: = `Acme.CanId.getCANID` with `static := if hasStatic then some .. `
     and `attached := if hasSender && hasBus then some (ops, node id)`.
 
+Validation kernels (kernels_valid.go): argument checks that several hand models re-implement.
+  * results `(*T, error)` ↦ `Option record × Option error`; an error keeps the argument name, and a
+    cause that is a STRUCT keeps its target: `&ArgumentError{Name: "min", Err: &ErrGreaterThen{Target:
+    "max"}}` ↦ `some (.ErrGreaterThen, "min", "max")`.  The parameters `ent` / `base` (entity,
+    attribute base: name, ids) and the fields they fill are not translated.
+  * the causes of these kernels are the SEPARATE generated inductive `K.VCause`; `K.Cause` stays the
+    set of sentinels of the layout kernels, whose match in `Acme.GenK.ofCause` is deliberately
+    exhaustive (a new sentinel in a layout function must break it).
+  * NEW CONVENTION, order-only floats (`floatOrder`): in these kernels a Go `float64` is the exact
+    `Rat` it denotes — as in Acme.Core.Attr — and ONLY parameters, constants, copies and the six
+    comparisons are translated; arithmetic and conversions on it are rejected by the translator.
+    NaN (every comparison false) and ±Inf are outside the model.  Used for the bounds of the float
+    attribute and for min / max / scale / offset of a signal type (which are only stored).
+  * `newSignalTypeFromEntity`: size < 0 ↦ ("size", ErrIsNegative), size = 0 ↦ ("size", ErrIsZero),
+    else the type with exactly the given fields; `K_newSignalType_step`: that is the model's
+    `typeNew` step (Acme.Core.Payload).  NO upper bound on the size is checked by the code (sizes
+    above 64 are accepted; the model agrees).
+  * `se.valueNames.verifyKeyUnique(name)` / `se.valueIndexes.verifyKeyUnique(index)` are OPAQUE: the
+    keys of the set are a list parameter and the call is "some ErrIsDuplicated iff the key is in the
+    list" (`set.verifyKeyUnique`, a generic method of helpers.go, is trusted); `se.verifySize(n)` is
+    the opaque parameter `verifySize : Int → Option VCause` (hypothesis `hvs` of
+    `K_verifyValueIndex`: it is the model's `enumVerifySize`).  `calcEnumSize` and `getMaxIndexWith`
+    inside `verifyValueIndex` are the generated kernels.
+
 Where a hypothesis appears (`v < 2 ^ 64`) it says that the argument is a Go `int`: the model
 functions are defined on all of `Int`, the Go function only on 64-bit values (for `v ≥ 2^64` the
 conversion `uint64(val)` of the source has no counterpart in the model).
@@ -293,6 +322,7 @@ import Acme.Proofs.GenKernelsBits
 import Acme.Proofs.GenKernelsDecode
 import Acme.Proofs.GenKernelsValue
 import Acme.Proofs.GenKernelsCanId
+import Acme.Proofs.GenKernelsValid
 import Acme.Proofs.Arith
 
 namespace Acme.Props.GenKernels
@@ -731,6 +761,79 @@ example : K.getCANID false 0#32 0x7F#32 0#32 true true 0xF#32 (defaultOps.map op
 example : K.getCANID false 0#32 0x7F#32 0#32 true false 0xF#32 (defaultOps.map opView) = 0x7F#32 := by decide
 
 end CanId
+
+/-! ### validation: constructors of signal types and attributes, enum value checks -/
+
+section Valid
+open Acme.GenK Acme.GoSem
+
+/-- signal_type.go `newSignalTypeFromEntity` as a function of its arguments -/
+theorem K_newSignalType (kind size : Int) (signed : Bool) (mn mx sc off : Rat) :
+    K.newSignalTypeFromEntity kind size signed mn mx sc off =
+      if size < 0 then (none, some (.ErrIsNegative, "size"))
+      else if size = 0 then (none, some (.ErrIsZero, "size"))
+      else (some ⟨kind, size, signed, mn, mx, sc, off⟩, none) :=
+  newSignalType_eq kind size signed mn mx sc off
+
+/-- it accepts exactly when the model's `typeNew` step (Acme.Core.Payload) does, with the same
+    cause, and the created type has the given size -/
+theorem K_newSignalType_step (w : Acme.Payload.W) (t : Nat) (ht : (w.types.get t).isSome = false)
+    (kind size : Int) (signed : Bool) (mn mx sc off : Rat) :
+    (Acme.Payload.step w (.typeNew t size)).2 =
+      typeOut (K.newSignalTypeFromEntity kind size signed mn mx sc off) ∧
+    ∀ ty, (K.newSignalTypeFromEntity kind size signed mn mx sc off).1 = some ty →
+      (Acme.Payload.step w (.typeNew t size)).1.types.get t = some ⟨ty.size⟩ :=
+  newSignalType_step w t ht kind size signed mn mx sc off
+
+open Acme.Attr in
+/-- attribute.go `newIntegerAttributeFromBase` = `Acme.Attr.newInt`: min > max, default > max,
+    default < min in this order, each with its argument name, cause and target (`attrErr`) -/
+theorem K_newIntegerAttribute (name : String) (d mn mx : Int) :
+    K.newIntegerAttribute d mn mx =
+      match newInt name d mn mx false with
+      | .ok _ => (some ⟨d, mn, mx, false⟩, none)
+      | .error e => (none, attrErr e) :=
+  newIntegerAttribute_eq name d mn mx
+
+open Acme.Attr in
+/-- attribute.go `newFloatAttributeFromBase` = `Acme.Attr.newFloat` (floats: exact rationals,
+    comparisons only) -/
+theorem K_newFloatAttribute (name : String) (d mn mx : Rat) :
+    K.newFloatAttribute d mn mx =
+      match newFloat name d mn mx with
+      | .ok _ => (some ⟨d, mn, mx⟩, none)
+      | .error e => (none, attrErr e) :=
+  newFloatAttribute_eq name d mn mx
+
+open Acme.Payload in
+/-- signal_enum.go `verifyValueName` refuses exactly the names the model's `hasValName` finds
+    (`names` = the keys of `se.valueNames` = the names of the enum's values) -/
+theorem K_verifyValueName (w : W) (values : List Nat) (name : String) :
+    K.verifyValueName (values.map (valName w)) name =
+      if hasValName w values name then some .ErrIsDuplicated else none :=
+  verifyValueName_model w values name
+
+open Acme.Payload in
+/-- signal_enum.go `verifyValueIndex` = `Acme.Payload.verifyValueIndex` (`vexc`: the causes as the
+    model's; `hvs`: the opaque `se.verifySize` is the model's `enumVerifySize`; `hmax`: indexes are
+    Go `int`s) -/
+theorem K_verifyValueIndex (w : W) (en : EnumE) (v : Nat) (index : Int) (vs : Int → Option K.VCause)
+    (hvs : ∀ n, vexc (vs n) = lexc (enumVerifySize w en n))
+    (hmax : maxIndexWith w en.values v index < 2 ^ 64) :
+    vexc (K.verifyValueIndex (en.values.map (valIndex w)) vs en.minSize (viewVals w en.values) v index) =
+      verifyValueIndex w en v index :=
+  verifyValueIndex_eq w en v index vs hvs hmax
+
+/-! Non-vacuity -/
+example : K.newSignalTypeFromEntity 2 0 false 0 0 1 0 = (none, some (.ErrIsZero, "size")) := by decide
+example : K.newIntegerAttribute 5 0 4 = (none, some (.ErrGreaterThen, "defValue", "max")) := by decide
+example : K.newIntegerAttribute 4 0 4 = (some ⟨4, 0, 4, false⟩, none) := by decide
+example : K.newFloatAttribute 0 1 2 = (none, some (.ErrLowerThen, "defValue", "min")) := by decide
+example : K.verifyValueName ["a", "b"] "b" = some .ErrIsDuplicated := by decide
+example : K.verifyValueIndex [1, 2] (fun _ => none) 1 [⟨7, 1⟩, ⟨8, 2⟩] 9 2 = some .ErrIsDuplicated := by decide
+example : K.verifyValueIndex [1, 2] (fun _ => none) 1 [⟨7, 1⟩, ⟨8, 2⟩] 9 3 = none := by decide
+
+end Valid
 
 /-! ### enum and multiplexer sizes -/
 
